@@ -109,7 +109,7 @@ def evaluate(part, cls, specs, values, append, root, tag):
     evals = [eff(s, v) for s, v in zip(specs, values)]
     conc = [T.concrete(root, v) for v in evals]
     expected, _ = R.build(T.EXE, specs, conc, append or [])
-    o = T.run_task(cls, T.kwargs_of(specs, values, append, root), root)
+    o = T.run_task(cls, T.kwargs_of(specs, values, append, root), root, want_cmdline=False)
     ncontrib = sum(1 for s, v in zip(specs, conc) if contributes(s, v))
     nt = ncontrib >= 2 or any(isinstance(v, list) and v for v in conc)
     part.case(key=json.dumps(case, sort_keys=True), nontrivial=nt and o["argv"] is not None)
